@@ -10,6 +10,7 @@ Three legs on the same batch of cases (request header list x body x handler prog
 """
 import base64
 import itertools
+from urllib.parse import unquote
 import os
 import re
 
@@ -38,7 +39,9 @@ TRUSTED = ['modelled, not verified: hyper-h2 stream life-cycle (open / half-clos
 ASSUMPTIONS = ['the flow-control windows are open; the transport is writable until the program pauses it (Pause), after '
                'which every sending call waits for write_ready; cancellation reaches the handler only in Sleep, in a Recv '
                'that has to wait, in such a paused sending call, or in the final Wait; the environment resumes writing '
-               'once the handler coroutine has ended',
+               'once the handler coroutine has ended (or at once when it is never called); awaiting listeners suspend '
+               'for zero time (asyncio.sleep(0)), so no scripted event lands in them -- they exist to expose a '
+               'cancellation that is already pending; events strike only while the handler coroutine runs',
                'the whole request (HEADERS, DATA, END_STREAM) is delivered before the handler task first runs',
                'a valid grpc-timeout is either far away (fires only while the handler waits) or scripted to fall '
                'inside a given Sleep; an API error is caught by the handler and the program goes on (letting it '
@@ -63,7 +66,9 @@ def canon_impl(obs, case):
     frames = []
     for f in obs['frames']:
         if f[0] in ('H', 'T'):
-            frames.append([f[0], [list(h) for h in f[1]], bool(f[2])])
+            # grpc-message travels percent-encoded; what a conforming client shows is the decoded text
+            frames.append([f[0], [[k, unquote(v, encoding='utf-8', errors='replace') if k == 'grpc-message' else v]
+                                  for k, v in f[1]], bool(f[2])])
         elif f[0] == 'D':
             frames.append(['D'] if (f[1] == REPLY_HEX and not f[2]) else ['D', f[1], f[2]])
         elif f[0] == 'R':
@@ -104,7 +109,7 @@ def model_line(case):
     b = case['body']
     w = ['run', cps(KNOWN_PATH), case['card'], str(b['msgs']), '1' if b.get('partial') else '0',
          '1' if b.get('eof') else '0', case.get('ext', 'none'),
-         str(-1 if case.get('ext_at') is None else case['ext_at']),
+         str(-1 if case.get('ext_at') is None else case['ext_at']), '1' if case.get('paused0') else '0',
          'H' if case.get('policy', 'honour') == 'honour' else 'S/' + fin_word(case.get('fin2') or ['ret']),
          fin_word(case['fin']), str(len(case['ops']))]
     w += [op_word(o) for o in case['ops']]
@@ -247,6 +252,11 @@ def oracle(case, obs, can):
         bad.append((what, sig))
     if obs['hang'] and obs['end'] is not None:
         fail('stuck', 'the handler coroutine ended (%s) but request_handler never finished' % obs['end'])
+    for f in obs['frames']:
+        if f[0] in ('H', 'T'):
+            for k, v in f[1]:
+                if k == 'grpc-message' and not all(0x20 <= ord(ch) <= 0x7e for ch in v):
+                    fail('message-not-ascii', 'grpc-message on the wire is not printable ASCII: %r' % v)
     if obs['violations']:
         fail('h2-violation', 'the validating peer rejected what the server sent: %s' % obs['violations'][:1])
     cls, info = classify_request([tuple(h) for h in case['headers']])
@@ -365,10 +375,16 @@ BODIES = [{'msgs': 0, 'partial': False, 'eof': True}, {'msgs': 0, 'partial': Fal
 STD_BODY = {'msgs': 1, 'partial': False, 'eof': True}
 
 
-def mk(ops, fin, card='UU', body=None, headers=None, policy='honour', fin2=None, ext='none', ext_at=None):
+def mk(ops, fin, card='UU', body=None, headers=None, policy='honour', fin2=None, ext='none', ext_at=None,
+       paused0=False, hooks_await=False):
     return {'headers': [list(h) for h in (headers if headers is not None else BASE)], 'card': card,
             'body': dict(body or STD_BODY), 'ops': list(ops), 'fin': list(fin), 'policy': policy,
-            'fin2': list(fin2 or ['ret']), 'ext': ext, 'ext_at': ext_at}
+            'fin2': list(fin2 or ['ret']), 'ext': ext, 'ext_at': ext_at, 'paused0': bool(paused0),
+            'hooks_await': bool(hooks_await)}
+
+
+# GRPCError / trailers messages that need escaping on the wire: what arrives (decoded) must be what was raised
+TRICKY = ['%41', 'a%2Fb', '100%25', '100%', '%', 'caf\xe9 \u2615', 'a b\tc', 'x\ny', '\u00e9%C3%A9', 'plain']
 
 
 def without(name):
@@ -456,7 +472,9 @@ def gen_random(rng, classes):
     fin = rng.choice(FINS + FINS_X)
     if fin[0] == 'grpc' and rng.random() < 0.7:
         code = rng.choice([0, 1, 2, 3, 4, 5, 8, 12, 14, 16])
-        fin = ['grpc', code, rng.choice([None, 'why-%d' % code, ''])]
+        fin = ['grpc', code, rng.choice([None, 'why-%d' % code, ''] + TRICKY)]
+    ops = [(['T', o[1], rng.choice(TRICKY)] + o[3:]) if (not isinstance(o, str) and rng.random() < 0.3) else o
+           for o in ops]
     policy = rng.choice(['honour', 'honour', 'swallow'])
     fin2 = rng.choice(FIN2S)
     ext = rng.choice(['none', 'none', 'reset', 'close'])
@@ -477,7 +495,8 @@ def gen_random(rng, classes):
         ext_at = None
     body = dict(rng.choice(BODIES))
     body['framing'] = rng.choice(['one', 'split', 'sep'])
-    return mk(ops, fin, rng.choice(CARDS), body, headers, policy, fin2, ext, ext_at)
+    return mk(ops, fin, rng.choice(CARDS), body, headers, policy, fin2, ext, ext_at,
+              paused0=rng.random() < 0.15, hooks_await=rng.random() < 0.3)
 
 
 def build_cases(ctx, res):
@@ -496,6 +515,30 @@ def build_cases(ctx, res):
             for ops, fin, card in ((['R', 'M'], ['ret'], 'UU'), (['M', 'M'], ['grpc', 3, 'bad arg'], 'SS'),
                                    ([], ['wait'], 'US')):
                 add('request-class', mk(ops, fin, card, body, hs))
+    # 1b. the reply path suspends: every request class (refused, expired on arrival, about to expire, valid) x
+    #     {transport paused before the request arrives, listeners that really await, both} x 4 cardinalities x
+    #     END_STREAM -- _abort / __aexit__ have to get their one terminal out after a real suspension
+    soon = [('expires-in-1n', BASE + [('grpc-timeout', '1n')]), ('expires-in-1u', BASE + [('grpc-timeout', '1u')])]
+    for name, hs in classes + soon:
+        about_to = name.startswith('expires-in')
+        for paused0, hooks in ((True, False), (False, True), (True, True)):
+            for card in CARDS:
+                for eof in (True, False):
+                    body = {'msgs': 1, 'partial': False, 'eof': eof}
+                    for ops, fin in (((['S', 'M'], ['ret'])), (['R'], ['wait'])):
+                        add('reply-path-suspends', mk(ops, fin, card, body, hs, ext_at=0 if about_to else None,
+                                                      paused0=paused0, hooks_await=hooks))
+    for ops in all_programs(2):                       # ... and short programs with awaiting listeners throughout
+        for card in ('UU', 'SS'):
+            for fin in FINS_X:
+                if fin[0] != 'wait':
+                    add('reply-path-suspends', mk(ops, fin, card, hooks_await=True))
+    # 1c. messages that need escaping: the decoded grpc-message must be the raised / the explicit one
+    for msg in TRICKY:
+        for card in ('UU', 'SS'):
+            add('tricky-message', mk(['M'], ['grpc', 9, msg], card))
+            add('tricky-message', mk(['M', ['T', 11, msg]], ['ret'], card))
+            add('tricky-message', mk([['T', 3, msg]], ['exc'], card, {'msgs': 1, 'partial': False, 'eof': False}))
     # 2. handler programs, exhaustive to the depth bound, x 4 cardinalities x 5 endings (standard request)
     depth = ctx.n(4, 5) if not ctx.search else 4
     res.extra['exhaustive_depth'] = depth
@@ -623,7 +666,11 @@ def unjson(case):
 def run(ctx):
     res = Result()
     res.rule = ('(1) a covering set of ~90 request header lists (every check of request_handler failing alone and in '
-                'pairs, duplicates, timeout and -bin spellings) x END_STREAM timing x 3 programs; (2) ALL handler '
+                'pairs, duplicates, timeout and -bin spellings) x END_STREAM timing x 3 programs; (1b) the same request '
+                'classes plus deadlines about to expire (1n, 1u) x {transport paused before the request arrives, listeners '
+                'on all five hooks that really await, both} x 4 cardinalities x END_STREAM, and all programs to depth 2 x '
+                '8 endings with awaiting listeners; (1c) GRPCError / explicit-trailer messages that need escaping (%41, '
+                'a%2Fb, 100%25, lone %, non-ASCII, control characters), compared after percent-decoding; (2) ALL handler '
                 'programs over the 7-letter alphabet {R,I,M,T(OK),T(NOT_FOUND),C,S} up to the depth bound (4 quick; thorough 5 '
                 'for UU and SS, 4 for US and SU) x 4 '
                 'cardinalities x {return, raise GRPCError(ABORTED), raise GRPCError(OK), raise Exception, raise BaseException}; '
